@@ -1043,9 +1043,26 @@ def check_code_generator(ctx: Ctx) -> None:
             tg = n.targets[0] if isinstance(n, ast.Assign) else n.target
             if isinstance(tg, ast.Attribute) and src(tg.value) == "self":
                 fld[tg.attr] = src(n.value)
+    # the buffer (bound to StringIO()) and the locals bound to its `write`
+    io_names = set()
+    for n in ast.walk(init.node):
+        if isinstance(n, (ast.Assign, ast.AnnAssign)) and isinstance(
+                getattr(n, "value", None), ast.Call) and src(
+                n.value.func).split(".")[-1] == "StringIO":
+            tg = n.targets[0] if isinstance(n, ast.Assign) else n.target
+            if isinstance(tg, ast.Name):
+                io_names.add(tg.id)
+    writers = {f"{i_}.write" for i_ in io_names}
+    for n in ast.walk(init.node):
+        if isinstance(n, (ast.Assign, ast.AnnAssign)) and getattr(
+                n, "value", None) is not None and src(n.value) in set(
+                writers):
+            tg = n.targets[0] if isinstance(n, ast.Assign) else n.target
+            if isinstance(tg, ast.Name):
+                writers.add(tg.id)
     ind = next((k for k, v in fld.items() if v == "1"), None)
     start = next((k for k, v in fld.items() if v == "True"), None)
-    wr = next((k for k, v in fld.items() if v in ("wrt", "io.write")), None)
+    wr = next((k for k, v in fld.items() if v in writers), None)
     if ind is None or start is None or wr is None:
         problems.append("CodeGenerator.__init__ does not start at indent 1, "
                         "start-of-line, with a writer")
@@ -1059,7 +1076,7 @@ def check_code_generator(ctx: Ctx) -> None:
                 else "?")
             for c in (_inl(c_) for c_ in ast.walk(init.node)
                       if isinstance(c_, ast.Call)
-                      and src(c_.func) in ("wrt", "io.write") and c_.args))]
+                      and src(c_.func) in writers and c_.args))]
         joined = "".join(hdr)
         if not (joined.startswith("@numba.njit(") and joined.count(
                 "\n") == 2 and "def ____func(#) -> #:\n" in joined):
